@@ -96,6 +96,8 @@ func paRender(q paQuery) (string, []string) {
 		switch q.Pos {
 		case "near":
 			text = head + " join " + q.T2
+		case "semi": // the join clause follows a ';' in the middle of the text (the server's parser reads straight through it)
+			text = head + " ; join " + q.T2
 		case "straddle": // byte 512 falls after the first character of the joined topic's name
 			pad := paCut - len(head) - len(" join ") - 1
 			text = head + strings.Repeat(" ", pad) + " join " + q.T2
